@@ -298,7 +298,7 @@ fn run(ctx: &mut Ctx) {
     }
     // 3. random trees to depth 6 over the boundary pool
     let pool = pool();
-    let n = ctx.tier.of(6_000, 120_000);
+    let n = ctx.tier.of(20_000, 200_000);
     let (_, fields) = std_facts(&pool, &mut rng);
     let cfg = GenCfg { fns: vec!["fun"], symbols: vec![("sym".into(), "Int")], fields, chaos: 50 };
     for _ in 0..n {
@@ -320,7 +320,7 @@ fn finish(m: &Merged, tier: Tier) -> Finish {
     // parent kind > child kind pairs among composite kinds (46 parent kinds with children x 47)
     let pairs = m.prefix_count("pair:");
     f.floors.push(floor(format!("parent>child@slot kind pairs rendered: {pairs}"), pairs >= 3_000));
-    f.floors.push(floor(format!("trees that round-trip: {}", m.c("round-trips")), m.c("round-trips") >= tier.of(50_000, 800_000)));
+    f.floors.push(floor(format!("trees that round-trip: {}", m.c("round-trips")), m.c("round-trips") >= tier.of(200_000, 2_000_000)));
     f.floors.push(floor(format!("pairs also evaluated: {}", m.c("evaluated-both")), m.c("evaluated-both") >= 10_000));
     f.extras.insert("families".into(), json!(m.prefix_map("family:")));
     f.extras.insert("kind_pairs".into(), json!(pairs));
